@@ -131,3 +131,29 @@ Example C20_end_to_end_fires : forall md ro args,
 Proof.
   intros md ro args. apply observe_order_independent. apply nsim_rev_node. exact C20_wfk_hyp.
 Qed.
+
+(* hypotheses of the end-to-end completion and help theorems on the same program *)
+From GO Require Import Proofs.CompleteE2E Proofs.HelpPerm.
+
+Ltac wfc_any :=
+  apply wfc_intro;
+  [ intros k oid H; vm_compute in H;
+    repeat (destruct H as [H|H]; [inversion H; subst; clear H; split; [vm_compute; reflexivity | eexists; vm_compute; reflexivity]|]);
+    contradiction
+  | nodup_keys
+  | intros k a H; vm_compute in H; repeat (destruct H as [H|H]; [inversion H; subst; clear H; wfc_any|]); contradiction ].
+
+Example C20_wfc_hyp : wfc specs root /\ wfc specs root_rev.
+Proof. split; [unfold root | unfold root_rev, root]; vm_compute; wfc_any. Qed.
+
+Example C20_completion_fires : forall t words,
+  complete pf0 Normal false specs fam_vfn fam_afn t root store0 words =
+  complete pf0 Normal false specs fam_vfn fam_afn t root_rev store0 words.
+Proof.
+  intros t words. destruct C20_wfc_hyp as [W W'].
+  apply complete_order_independent; [apply nsim_rev_node; exact C20_wfk_hyp | exact W | exact W'].
+Qed.
+
+Example C20_help_hyps :
+  NoDup (keys (n_cmds root)) /\ NoDup (keys (n_cmds root_rev)) /\ NoDup (List.map fst (listed_commands root)).
+Proof. split; [|split]; nodup_keys. Qed.
